@@ -244,6 +244,15 @@ pub struct Slots<T: Reg> {
     pub a: T,
     pub b: T,
 }
+// TLC integers are 32 bit: an out-of-range index is logged as-is when small, otherwise as a representative that is
+// still >= every array length (the specification only asks "is it >= K")
+fn idx_log(i: usize) -> usize {
+    if i < (1 << 30) {
+        i
+    } else {
+        (1 << 30) + (i % 1000)
+    }
+}
 fn sl(i: usize) -> &'static str {
     if i == 0 {
         "a"
@@ -339,7 +348,7 @@ impl<'r, T: Reg> Drv<'r, T> {
             "{{\"ev\":\"get\",\"slot\":\"{}\",\"field\":{},\"idx\":{},\"res\":{}}}",
             sl(s),
             f,
-            i,
+            idx_log(i),
             obs_json(&res)
         ));
     }
@@ -356,7 +365,7 @@ impl<'r, T: Reg> Drv<'r, T> {
         let dst_raw = catch_unwind(AssertUnwindSafe(|| dst.raw()));
         self.r.line(format!(
             "{{\"ev\":\"with\",\"src\":\"{}\",\"dst\":\"{}\",\"field\":{},\"idx\":{},\"arg\":{},\"panic\":{},\"src_raw\":{},\"dst_raw\":{},\"raw_panic\":{},\"store\":{}}}",
-            sl(s), sl(t), f, i, bits_json(v), panic, bits_json(src_raw),
+            sl(s), sl(t), f, idx_log(i), bits_json(v), panic, bits_json(src_raw),
             bits_json(*dst_raw.as_ref().unwrap_or(&0)), dst_raw.is_err(), bits_json(dst.store())
         ));
     }
@@ -369,7 +378,7 @@ impl<'r, T: Reg> Drv<'r, T> {
         let raw = catch_unwind(AssertUnwindSafe(|| x.raw()));
         self.r.line(format!(
             "{{\"ev\":\"set\",\"slot\":\"{}\",\"field\":{},\"idx\":{},\"arg\":{},\"panic\":{},\"raw\":{},\"raw_panic\":{},\"store\":{}}}",
-            sl(s), f, i, bits_json(v), res.is_err(), bits_json(*raw.as_ref().unwrap_or(&0)), raw.is_err(), bits_json(x.store())
+            sl(s), f, idx_log(i), bits_json(v), res.is_err(), bits_json(*raw.as_ref().unwrap_or(&0)), raw.is_err(), bits_json(x.store())
         ));
     }
     pub fn op_build(&mut self, t: usize, args: &[Vec<u128>]) {
@@ -524,7 +533,7 @@ impl<'r, T: Reg> Drv<'r, T> {
             }
             if m.is_array {
                 self.op_new(0, mask(T::N));
-                for i in [m.count, m.count + 1, m.count + 7, 1usize << 20] {
+                for i in [m.count, m.count + 1, m.count + 7, 1usize << 20, 1usize << 61, (1usize << 62) + 5, usize::MAX / 3 + 1, usize::MAX] {
                     self.op_get(0, f, i);
                 }
             }
@@ -571,7 +580,7 @@ impl<'r, T: Reg> Drv<'r, T> {
             }
             if m.is_array {
                 let v0 = self.rand_val(f);
-                for i in [m.count, m.count + 1, m.count + 7, 1usize << 20] {
+                for i in [m.count, m.count + 1, m.count + 7, 1usize << 20, 1usize << 61, (1usize << 62) + 5, usize::MAX / 3 + 1, usize::MAX] {
                     self.op_new(0, mask(T::N));
                     self.op_with(0, 1, f, i, v0);
                     self.op_set(0, f, i, v0);
